@@ -60,12 +60,12 @@ def make_crate(root, name, bins, ctx, with_deps):
             f.write(src)
 
 
-def cargo_build(root, target_dir, ctx, timeout=3600):
+def cargo_build(root, target_dir, ctx, timeout=3600, release=False):
     """Returns (artifacts: bin -> exe path, diags: bin -> [diag], raw_rc, stderr_tail)."""
     e = ctx["env_base"]()
     e["RUSTFLAGS"] = "--cfg recmo_uint_verif"
     e["CARGO_TARGET_DIR"] = target_dir
-    cmd = ["cargo", "build", "--offline", "--bins", "--keep-going", "--message-format=json"]
+    cmd = ["cargo", "build", "--offline", "--bins", "--keep-going", "--message-format=json"] + (["--release"] if release else [])
     p = subprocess.run(cmd, cwd=root, env=e, stdout=subprocess.PIPE, stderr=subprocess.PIPE, text=True, timeout=timeout)
     arts, diags = {}, {}
     for line in p.stdout.splitlines():
@@ -370,7 +370,16 @@ def gen_positive(rng, n, tier):
         kind = "U" if rng.random() < 0.8 else "B"
         top = 2**bits - 1
         r = rng.random()
-        if r < 0.2:
+        if r < 0.12 and bits > 64:
+            # digit prefixes that land on a limb boundary: the running value of a digit-by-digit parser passes
+            # through 2^(64 j) + d (d around 0 .. base) and then takes t more digits
+            j = rng.randint(1, (bits - 1) // 64)
+            pfx = 2**(64 * j) + rng.randint(-3, base + 2)
+            t = rng.choice([0, 0, 1, 2, 3, rng.randint(0, 40)])
+            v = pfx * base**t + (rng.randrange(base**t) if t else 0)
+            if v > top:
+                v = min(top, pfx)
+        elif r < 0.2:
             v = top
         elif r < 0.3:
             v = 0
@@ -461,6 +470,33 @@ def gen_hex_passthrough(rng, n):
         # a `U` never occurs, so the only suffix candidate is the last B; it must not be preceded by `_`
         out.append(("0x" + body, int(digits, 16)))
     return out
+
+
+FWD_DEFS = """use ruint::uint;
+macro_rules! fwd_expr { ($e:expr) => { uint!($e) }; }
+macro_rules! fwd_lit { ($l:literal) => { uint!($l) }; }
+macro_rules! fwd_tt { ($($t:tt)*) => { uint!($($t)*) }; }
+macro_rules! fwd_deep { ($e:expr) => { fwd_expr!([($e)][0]) }; }
+"""
+
+
+def mini_program(c, how="direct", k=0):
+    """Self-judging one-literal program used as the replay of a positive violation: exits 0 iff the literal has
+    exactly the value of its digits (and equals run-time parsing of the same digits)."""
+    limbs = limbs_of(c["value"], c["bits"])
+    nl = (c["bits"] + 63) // 64
+    ty = ("ruint::Uint" if c["kind"] == "U" else "ruint::Bits") + f"<{c['bits']}, {nl}>"
+    if how == "forwarded":
+        expr = f"{FORWARDERS[k]}!({c['literal']})"
+    elif how == "const":
+        expr = "C"
+    else:
+        expr = f"ruint::uint!({c['literal']})"
+    pre = f"    const C: {ty} = ruint::uint!({c['literal']});\n" if how == "const" else ""
+    inner = "v" if c["kind"] == "U" else "v.into_inner()"
+    return (f"#![allow(unused)]\n{FWD_DEFS}fn main() {{\n{pre}    let v: {ty} = {expr};\n"
+            f"    assert_eq!(v.as_limbs().to_vec(), vec!{limbs}.into_iter().map(|x: u64| x).collect::<Vec<u64>>());\n"
+            f"    assert_eq!(Ok({inner}), ruint::Uint::<{c['bits']}, {nl}>::from_str_radix(\"{c['digits']}\", {c['base']}));\n}}\n")
 
 
 def build_positive_program(cases, rng, with_passthrough):
@@ -601,6 +637,28 @@ def build_negative_program(bad, good):
 
 
 def run_macro(tier, seed, ctx):
+    """The macro runs inside rustc, in whatever profile the user builds with: the same programs are compiled and
+    judged twice, in the dev profile (overflow checks and debug assertions on in the proc-macro) and in the
+    release profile (both off)."""
+    total = None
+    for release in (False, True):
+        ev, distinct, samples, viol, inc, detail = _run_macro_profile(tier, seed, ctx, release)
+        prof = "release" if release else "dev"
+        if total is None:
+            total = [ev, distinct, samples, viol, [f"{i}" for i in inc], {prof: detail}]
+            continue
+        total[0] += ev
+        total[1] = max(total[1], distinct)
+        for sig, v in viol.items():
+            t = total[3].setdefault(sig, dict(count=0, first=[], lane="probe"))
+            t["count"] += v["count"]
+            t["first"] = (t["first"] + v["first"])[:3]
+        total[4] += [f"{prof}:{i}" for i in inc]
+        total[5][prof] = detail
+    return tuple(total)
+
+
+def _run_macro_profile(tier, seed, ctx, release):
     rng = random.Random(seed * 7919 + 17)
     root = os.path.join(ctx["WORK"], "probe-macro")
     target = os.path.join(ctx.get("TARGET", os.path.join(ctx["ROOT"], "target")), "probe-macro")
@@ -623,8 +681,8 @@ def run_macro(tier, seed, ctx):
         neg_meta[f"neg{k}"] = (bad_lines, good_lines)
     make_crate(root, "probe_macro", bins, ctx, with_deps=False)
     t = time.time()
-    arts, diags, rc, tail = cargo_build(root, target, ctx)
-    ctx["log"](f"[probe] macro: {len(bins)} programs, {len(arts)} linked, build {time.time() - t:.1f}s")
+    arts, diags, rc, tail = cargo_build(root, target, ctx, release=release)
+    ctx["log"](f"[probe] macro ({'release' if release else 'dev'} profile): {len(bins)} programs, {len(arts)} linked, build {time.time() - t:.1f}s")
     violations, samples, inconclusive = {}, [], []
     evals = 0
     distinct = set()
@@ -636,7 +694,7 @@ def run_macro(tier, seed, ctx):
         v["count"] += 1
         if len(v["first"]) < 3:
             rec = dict(rec)
-            rec.update(property="C19", signature=sig, lane="probe", replay_kind="macro")
+            rec.update(property="C19", signature=sig, lane="probe", replay_kind="macro", profile="release" if release else "dev")
             v["first"].append(rec)
 
     # ---- positive programs
@@ -679,10 +737,10 @@ def run_macro(tier, seed, ctx):
                 if not ok:
                     viol("C19|positive|value", dict(op="positive", kind="literal value/type differs from the digits",
                          literal=c["literal"], expected=f"Uint<{c['bits']}> limbs {exp_limbs}",
-                         observed=f"<{got_b},{got_l}> {got_limbs}", program=bins[name]))
+                         observed=f"<{got_b},{got_l}> {got_limbs}", program=mini_program(c)))
                 if rt_ok != "true":
                     viol("C19|positive|runtime-parse-differs", dict(op="positive", kind="literal differs from from_str_radix of the same digits",
-                         literal=c["literal"], expected="equal", observed=rest, program=bins[name]))
+                         literal=c["literal"], expected="equal", observed=rest, program=mini_program(c)))
                 if len(samples) < 8 and len(c["digits"]) >= 2:
                     samples.append(dict(property="C19", op="positive", literal=c["literal"], limbs=exp_limbs, verdict="held"))
             elif parts[0] == "F":
@@ -695,7 +753,7 @@ def run_macro(tier, seed, ctx):
                 exp_limbs = limbs_of(c["value"], c["bits"])
                 if not (int(fp[3]) == c["bits"] and int(fp[4]) == (c["bits"] + 63) // 64 and json.loads(fp[5]) == exp_limbs):
                     viol("C19|positive|forwarded-value", dict(op="positive", kind=f"literal forwarded through {FORWARDERS[k]}! differs from the digits",
-                         literal=c["literal"], expected=f"Uint<{c['bits']}> limbs {exp_limbs}", observed=line, program=bins[name]))
+                         literal=c["literal"], expected=f"Uint<{c['bits']}> limbs {exp_limbs}", observed=line, program=mini_program(c, "forwarded", k)))
             elif parts[0] == "C":
                 i = int(parts[1])
                 c = cases[i]
@@ -704,7 +762,7 @@ def run_macro(tier, seed, ctx):
                 got = json.loads(line.split(" ", 2)[2])
                 if got != limbs_of(c["value"], c["bits"]):
                     viol("C19|positive|const-value", dict(op="positive", kind="const item value differs", literal=c["literal"],
-                         expected=str(limbs_of(c["value"], c["bits"])), observed=str(got), program=bins[name]))
+                         expected=str(limbs_of(c["value"], c["bits"])), observed=str(got), program=mini_program(c, "const")))
             elif parts[0] == "H":
                 evals += 1
                 counts["passthrough_checked"] += 1
@@ -765,18 +823,20 @@ def replay_macro(rec, ctx):
     target = os.path.join(ctx.get("TARGET", os.path.join(ctx["ROOT"], "target")), "probe-macro")
     ctx2 = dict(ctx)
     make_crate(root, "probe_macro", {"replay": rec["program"]}, ctx2, with_deps=False)
-    arts, diags, rc, tail = cargo_build(root, target, ctx2)
+    arts, diags, rc, tail = cargo_build(root, target, ctx2, release=rec.get("profile") == "release")
+    rc_, out = None, ""
     if "replay" not in arts:
         m = (diags.get("replay") or [{}])[0].get("message", "")
         print("replay: does not compile:", m[:300])
         compiled = False
     else:
         rc_, out, err = run_bin(arts["replay"])
-        print(f"replay: compiled; rc={rc_}\n{out[:600]}")
+        print(f"replay: compiled; rc={rc_}\n{out[:600]}{err[-300:]}")
         compiled = True
-    op = rec.get("op")
-    if op == "negative":
-        bad = compiled if rec["signature"].startswith("C19|negative|accepted") else not compiled
+    if rec["signature"].startswith("C19|negative|accepted"):
+        bad = compiled  # a bad literal must not compile
     else:
-        bad = not compiled
+        # every other program is valid and self-judging: it has to compile, exit 0 and print no failed P line
+        failed_p = any(l.startswith("P ") and l.strip().endswith("false") for l in out.splitlines())
+        bad = (not compiled) or rc_ != 0 or failed_p
     return 1 if bad else 0
